@@ -1,16 +1,56 @@
 (* C02 - a record is handed out only once its key chain is durable.
-   FULL STATEMENT (decided by exhaustive-style fault enumeration + correspondence today): at every EncryptRet(Ok r),
-   under every fault plan, the IK row r names and its SK row are in the store and a fresh process decrypts r.
-   PROVED here (partial): for every history and every SDK operation, under every fault plan, the store only grows
-   by appending rows at absent keys - no row is ever modified, removed or duplicated (so durability, once
-   established, is permanent and a crash after any operation leaves a well-formed store). *)
-From Asherah Require Import Envelope.Session Envelope.Frame Envelope.FrameInst Envelope.Create.
+   PROVED (Envelope/Coherent.v), for EVERY history of SDK operations (new factories with any cache policies, sessions of any
+   partitions, Encrypt/Decrypt with any fault plan on any boundary call - errors, false "already exists", errors after the
+   write -, any record mutation on Decrypt, session and factory closes), clock advances and key revocations over one
+   service/product with default (unsuffixed) key ids:
+   - every record any Encrypt has returned names an intermediate key row that IS in the metastore, whose ParentKeyMeta names a
+     system key row that IS in the metastore, the data key is sealed under exactly that intermediate key's material and the
+     payload under that data key (C02_records_durable; C02_encrypt_returns_genuine ties the record to THIS payload), so the
+     metastore contents and the KMS open it;
+   - the metastore only ever holds well-formed rows (C02_store_well_formed) and only grows (C02_store_append_only).
+   The proof is an invariant over the whole process state (cache coherence: every key object a key cache can hand out is bound
+   to the row it is cached under) carried through every function of key_cache.go, envelope.go, session.go, session_cache.go.
+   NOT covered by these theorems: region-suffixed factories (known finding C06-B lives there), several services/products in
+   one metastore, hostile metastore writes (C07's subject); "once the faults stop the next operation succeeds" is decided by
+   the monitor (and by C01's theorems for the cache-less configuration). *)
+From Asherah Require Import Envelope.Session Envelope.Frame Envelope.FrameInst Envelope.Create Envelope.Coherent Envelope.Rotation.
 
-Theorem C02_store_append_only_partial : forall h o, sdk_op o = true ->
+Theorem C02_records_durable : forall svc prod t0 ops,
+  Forall (benign svc prod) ops ->
+  let h := snd (hrun (hinit t0) ops) in
+  forall j d, nth_error (h_recs h) j = Some d -> exists pid p, genuine svc prod (w_store (h_world h)) pid d p.
+Proof. exact records_durable. Qed.
+Print Assumptions C02_records_durable.
+
+Theorem C02_encrypt_returns_genuine : forall svc prod h s payload faults,
+  HInv svc prod h ->
+  match hstep h (HEncrypt s payload faults) with
+  | (OEnc _ _, _, h') =>
+      exists d pid, h_recs h' = h_recs h ++ [d] /\ genuine svc prod (w_store (h_world h')) pid d (PPayload payload)
+  | _ => True
+  end.
+Proof. exact encrypt_returns_genuine. Qed.
+Print Assumptions C02_encrypt_returns_genuine.
+
+Theorem C02_store_well_formed : forall svc prod t0 ops,
+  Forall (benign svc prod) ops -> store_ok svc prod (w_store (h_world (snd (hrun (hinit t0) ops)))).
+Proof. exact store_well_formed. Qed.
+Print Assumptions C02_store_well_formed.
+
+(* the hypotheses are met and the conclusion is about something: a history with rotation, a faulted encrypt and three records *)
+Example C02_nonvacuous :
+  Forall (benign (s "svc") (s "prod")) (witness_expiry ++ [HEncrypt 3 5 [(2%nat, FErr)]; HRevoke (s "_SK_svc_prod") (1790000000); HEncrypt 3 6 []]) /\
+  length (h_recs (snd (hrun (hinit t0) (witness_expiry ++ [HEncrypt 3 5 [(2%nat, FErr)]; HRevoke (s "_SK_svc_prod") (1790000000); HEncrypt 3 6 []])))) = 5%nat.
+Proof.
+  split; [|vm_compute; reflexivity].
+  repeat constructor; cbn; try exact I.
+Qed.
+
+Theorem C02_store_append_only : forall h o, sdk_op o = true ->
   (exists ext, w_store (h_world (snd (hstep h o))) = w_store (h_world h) ++ ext) /\
   (NoDup (store_keys (w_store (h_world h))) -> NoDup (store_keys (w_store (h_world (snd (hstep h o)))))).
 Proof. exact sdk_store_append_only. Qed.
-Print Assumptions C02_store_append_only_partial.
+Print Assumptions C02_store_append_only.
 
 (* under every fault plan (error, false duplicate, error-after-write on any call): a freshly generated intermediate key is
    handed out only if its row is in the store at that moment; otherwise its secret is released before the call returns *)
